@@ -58,17 +58,6 @@ Fixpoint strs_eqb (a b : list string) : bool :=
   | _, _ => false
   end.
 
-Definition kinds (p : packet) : list fk := map snd (p_write p).
-Definition rkinds (p : packet) : list fk := map snd (p_read p).
-
-(* the reader mirrors the writer field for field, every struct field is on the wire
-   exactly once in declaration order, and every enum table is coherent *)
-Definition packet_ok (p : packet) : bool :=
-  p_parsed p
-  && ops_eqb (p_write p) (p_read p)
-  && forallb kind_ok (kinds p)
-  && strs_eqb (filter (fun f => negb (String.eqb f "_const")) (map fst (p_write p))) (p_fields p).
-
 Definition same_packet (p : packet) (l : layout) : bool :=
   String.eqb (p_state p) (l_state l) && String.eqb (p_dir p) (l_dir l) && String.eqb (p_name p) (l_name l).
 
@@ -77,6 +66,28 @@ Fixpoint find_layout (p : packet) (ls : list layout) : option layout :=
   | [] => None
   | l :: r => if same_packet p l then Some l else find_layout p r
   end.
+
+(* what the protocol table says the packet looks like *)
+Definition table_kinds (p : packet) : list fk :=
+  match find_layout p mc_layout with
+  | Some l => match l_fields l with Some ks => ks | None => [] end
+  | None => []
+  end.
+
+(* the wire form of a packet as the models use it: what the translator read off the impl; for an impl
+   written in a form the translator does not understand ([p_parsed] false), what the protocol table
+   says - the models then still run, C09's tie theorem (every packet parsed and equal to the table)
+   fails, and the correspondence decides whether the code still does what the table says *)
+Definition kinds (p : packet) : list fk := if p_parsed p then map snd (p_write p) else table_kinds p.
+Definition rkinds (p : packet) : list fk := if p_parsed p then map snd (p_read p) else table_kinds p.
+
+(* the reader mirrors the writer field for field, every struct field is on the wire
+   exactly once in declaration order, and every enum table is coherent *)
+Definition packet_ok (p : packet) : bool :=
+  p_parsed p
+  && ops_eqb (p_write p) (p_read p)
+  && forallb kind_ok (kinds p)
+  && strs_eqb (filter (fun f => negb (String.eqb f "_const")) (map fst (p_write p))) (p_fields p).
 
 Definition layout_ok (p : packet) : bool :=
   match find_layout p mc_layout with
